@@ -74,6 +74,9 @@ def get_evaluable_architecture(
             convert_partial_match_to_regex(pattern) for pattern in external_exclusions
         )
 
+    if regex_exclusions is None:
+        regex_exclusions = ()
+
     root_as_path = Path(root_path)
     module_as_path = Path(module_path)
 
